@@ -53,6 +53,9 @@ func patchTreasuresOneSwamp(ctx context.Context, g Gateway, in *hydrapb.PatchTre
 		if patch.GetKey() == "" {
 			return nil, false, status.Error(codes.InvalidArgument, "patch Key cannot be empty")
 		}
+		if err := checkTreasureKeyLength(patch.GetKey()); err != nil {
+			return nil, false, err
+		}
 	}
 
 	// Cap validation runs before swamp summon so a malformed Cap is
